@@ -80,7 +80,7 @@ CLAIMS = {
    text='Theorems C04_encode_is_documented (the recursive serializer of the model emits exactly the documented wire format spec_enc for every well-typed value of every type of the universe: arithmetic, enums, '
         'sequences incl. strings/arrays/maps-as-pairs, tuples, optionals/pointers, variants, structs, nested to any depth), C04_size_exact (serialized_size equals the number of bytes written, for all of them) and '
         'C04_event_within_reservation (an event written by addEvent stays inside the queue reservation computed from serialized_size) - Coq, closed, unbounded. Tied on every run by GENERATED C++ programs: random type '
-        'descriptions are rendered both as model terms and as real C++ types (MSERIALIZE_MAKE_STRUCT_*, std containers, smart pointers, optional, variant), compiled against /repo, and bytes / sizes compared with the extracted model; '
+        'descriptions are rendered both as model terms and as real C++ types (MSERIALIZE_MAKE_STRUCT_* over members and over getters, std containers, a user container with a proxy iterator, smart pointers, optional, variant), compiled against /repo, and bytes / sizes compared with the extracted model; '
         'the implementation alone is also compared with an independent python rendering of the documented format.',
    note=NOTE_COMMON + 'tools/gen_mser.py (renders one description two ways); template dispatch is the compiler\'s; floating point values are carried as raw bit patterns; user-defined CustomSerializer specialisations other than those shipped are outside the universe.',
    design='4/C04', technique='Coq proof by induction over a type/value universe (custom nested induction principle) + generated-program differential correspondence'),
@@ -93,8 +93,8 @@ CLAIMS = {
    design='4/C05', technique='Coq round-trip proof over the type/value universe, prefix-rejection lemma by induction; generated-program differential correspondence'),
  'C06': dict(
    text='Theorems C06_tag_wellformed (tag<T>() of every type of the universe is a well-formed tag of the documented grammar), C06_tag_pop_tag / C06_tag_pop_concat (the tag tokenizer splits a concatenation of tags exactly at '
-        'the boundaries, names with balanced brackets included) - Coq, closed, unbounded - and C06_visit_agrees_partial: for every value of every SIMPLE type (arithmetic, sequences of at most 32 elements, tuples, optionals, variants, non-empty structs; '
-        'PARTIAL: enums, empty structs, recursive hand-written tags and the >32-element repeat collapsing are not in the theorem), visit(tag(t), bytes(v)) with recursion budget 2048 reports exactly callbacks(t, v) and consumes exactly the value. '
+        'the boundaries, names with balanced brackets included) - Coq, closed, unbounded - and C06_visit_agrees_partial / C06_visit_agrees_any_visitor: for every value of every SIMPLE type (arithmetic, adapted enums over integral types, sequences of at most 32 elements, tuples, optionals, variants, non-empty structs; '
+        'PARTIAL: empty structs, enums over bool, recursive hand-written tags and the >32-element repeat collapsing are not in the theorem), for a plain visitor and for one that takes whole strings / has a printStruct hook,, visit(tag(t), bytes(v)) with recursion budget 2048 reports exactly callbacks(t, v) and consumes exactly the value; C06_enumerator_is_found_by_value: the enumerator reported is the first whose value is the value visited. '
         'The parts outside the theorem are tied by correspondence only: generated programs (tag, full callback sequence, ToString text) and hand-written recursive tags with prefix-related struct names, plus corrupted tags/bytes, run through mserialize::visit and the model.',
    note=NOTE_COMMON + 'as C04; the visit theorem is partial as stated; string-level name resolution of recursive struct references is modelled (resolve_recursive) and executed against the code but not covered by a theorem.',
    design='4/C06', technique='Coq proof on string-level tag tokenizer and visitor interpreter (fuelled, fuel = the code\'s recursion limit) + generated-program and hand-written-tag differential correspondence'),
@@ -109,9 +109,10 @@ CLAIMS = {
    design='4/C09', technique='Coq proofs on the reader/visitor model for the parts that are logic (bounds of entries, assertion-freedom of time formatting, collapse rule) + refutation witness; model-vs-code differential execution on hostile inputs under sanitizers'),
  'C07': dict(
    text='Theorems (Coq, closed): C07_source_read_back / C07_writer_read_back / C07_clock_sync_read_back (every metadata field serialized by the writer side is recovered exactly by the reader, any trailing bytes ignored), '
-        'C07_event_read_back (an event is presented with the source registered under its id, the current writer properties, its clock and its argument bytes verbatim), C07_message_of_arithmetic_arguments (for EVERY format string and '
-        'every list of arithmetic arguments matching its {} count the message is the format with each {} replaced in order by the value text), C07_float_digits_nearest (the 16 digits printed are the exact binary value rounded half-to-even). '
-        'PARTIAL: the notation of composite arguments (containers, tuples, structs, enums, optionals, variants) and the chain through the real macros and session are not theorems here (they rest on C04/C06/C03/C11/C14/C17 and on execution): '
+        'C07_event_read_back (an event is presented with the source registered under its id, the current writer properties, its clock and its argument bytes verbatim), C07_message_of_arithmetic_arguments and C07_message_of_simple_arguments (for EVERY format string and every list of arguments of the simple universe - arithmetic, adapted enums, strings, sequences up to 32, tuples, optionals, variants, non-empty structs - '
+        'matching its {} count, the message is the format with each {} replaced in order by text_of(value): the composition of C04 bytes, C06 visit and the ToString state machine), C07_value_text_is_documented_notation (the state machine prints strings verbatim, [a, b], (a, b), Name{ f: v }, {null}, enumerator or 0xHEX from any state), '
+        'C07_float_digits_nearest (the 16 digits printed are the exact binary value rounded half-to-even). '
+        'PARTIAL: empty structs, sequences above 32 elements, the special struct renderings, recursive tags and the chain through the real macros and session are not theorems here (they rest on C04/C06/C03/C11/C14/C17 and on execution): '
         'generated C++ programs log through BINLOG_<SEV>_W/_WC and BINLOG_CREATE_SOURCE_AND_EVENT with random argument types, writers that come and go, consumes in between; printEvents of the current tree must print exactly the text the '
         'model reader+renderer gives for the log the program denotes; an independent python rendering of the documented notation is compared with code and model on typed wire-level logs.',
    note=NOTE_COMMON + 'tools/gen_log.py, gen_mser.py, gen_wire.py; python framing of entries; the programs are built with UBSan only so that allocator reuse of freed channels is observable; named-macro clocks (clockNow) are not compared.',
@@ -126,8 +127,9 @@ CLAIMS = {
  'C08': dict(
    text='PARTIAL by theorem, completed by execution on real memory images. Theorems (Coq, closed): C08_queue_image_recovers_committed (for EVERY capacity, operation sequence and reads-from history the channel memory, as Session::Channel lays it out, '
         'is read by the tool as exactly the committed bytes from the released offset to the last commit), C08_recovered_range_is_whole_commits (both ends are commit boundaries), C08_partial_event_invisible (any bytes of an event in flight anywhere in the granted window change nothing), '
-        'C08_metadata_recoverable_in_every_write_state + C08_good_block_recovered (in every memory state of RecoverableVectorOutputStream::write, growth included, a block with its magic set holds exactly the completed entries and is read by the tool); '
-        'built on the C01 invariant and the C20 model of brecovery, instantiated with the growth protocol / single-write / magic facts read off the sources. Not a theorem: that the blocks of a session combine into a printable log, and instants inside several operations at once: '
+        'C08_metadata_recoverable_in_every_write_state + C08_good_block_recovered (in every memory state of RecoverableVectorOutputStream::write, growth included, a block with its magic set holds exactly the completed entries and is read by the tool), '
+        'C08_scan_finds_the_blocks + C08_recovered_log_of_an_image (for any image made of arbitrary bytes without a stray magic number, metadata blocks and channel blocks in any order the tool finds exactly the blocks and writes what the block theorems say) and C08_metadata_before_data (per session all recovered metadata precede all recovered data); '
+        'built on the C01 invariant and the C20 model of brecovery, instantiated with the growth protocol / single-write / magic facts read off the sources. Not a theorem: that the metadata blocks in memory at an instant cover the sources of the queued events (session-level invariant), and instants inside several operations at once: '
         'the real headers run scripted scenarios (sources registered, buffers growing, queues wrapping, writers logging inside consume) and dump all writable mappings at points before/after every atomic access and memcpy of the library; the real brecovery '
         'must recover every completed event, printable, nothing uncommitted, per-queue order, and equal the model on every image.',
    note=NOTE_COMMON + 'harness/drv_crash.cpp stand-ins (layout-compatible atomic, memcpy, mutex); points are boundaries of atomic accesses and memcpy calls (not inside memmove); teardown of the session excluded; an image is assumed to show all completed stores.',
